@@ -2330,6 +2330,34 @@ def sc_locate_slice_strict(P):
     return out
 
 
+def sc_maybe_delete_axes(P):
+    """Dataset._maybe_delete_axes(axes): of the candidate axes, exactly those that no variable of the dataset has a dimension for are removed from the dataset's axes
+    (each candidate decided on its own; the variables themselves untouched)"""
+    out = []
+
+    def case(label, variables, ds_dims, cand):
+        def mk():
+            vs = dict((k, var_stub(k.upper(), d)) for k, d in variables)
+            axes = [mk_axis(d, {'x': 3, 'y': 2, 'z': 4, 'w': 5}[d]) for d in ds_dims]
+            for v in vs.values():
+                v.attrs['axes'] = mk_axes([a for a in axes if a.attrs['name'] in v.attrs['dims']])
+            ds = mk_dataset(P, vs, axes=axes)
+            byname = dict((a.attrs['name'], a) for a in axes)
+            return [ds, [byname[c] for c in cand]], {}, {'overrides': ds_overrides(P), 'post': lambda itp, r: 'returns %s; %s' % (render(r), render(ds))}
+        out.append((label, mk))
+    V = (('a', ('x',)), ('b', ('x', 'y')))
+    case('no candidate', V, ('x', 'y', 'z'), [])
+    case('one unused candidate', V, ('x', 'y', 'z'), ['z'])
+    case('one candidate still in use by the last variable', V, ('x', 'y', 'z'), ['y'])
+    case('one candidate still in use by the first variable only', (('a', ('x', 'z')), ('b', ('y',))), ('x', 'y', 'z'), ['z'])
+    case('in use, then unused', V, ('x', 'y', 'z'), ['x', 'z'])
+    case('unused, then in use', V, ('x', 'y', 'z'), ['z', 'y'])
+    case('two unused candidates', V, ('x', 'y', 'z', 'w'), ['z', 'w'])
+    case('in use, unused, in use, unused', V, ('x', 'z', 'y', 'w'), ['x', 'z', 'y', 'w'])
+    case('dataset without variables', (), ('x', 'y'), ['x', 'y'])
+    return out
+
+
 def sc_axes_from(P):
     """Axes.from_shape / from_arrays / from_dict called directly"""
     out = []
@@ -2342,6 +2370,7 @@ SCENARIOS = {
     'dimarray.core.bases.AbstractDimArray._setitem': (('C03',), sc_item_dispatch(None, '_setitem')),
     'dimarray.core.bases.AbstractHasAxes._getaxes_ortho': (('C01', 'C02'), sc_getaxes_ortho),
     'dimarray.core.indexing._locate_slice_strict': (('C02',), sc_locate_slice_strict),
+    'dimarray.dataset.Dataset._maybe_delete_axes': (('C13',), sc_maybe_delete_axes),
     'dimarray.core.axes._init_axes': (('C05',), sc_init_axes),
     'dimarray.tools.is_array1d_equiv': (('C05',), sc_array1d_equiv),
     'dimarray.core.dimarraycls.DimArray.from_nested': (('C05',), sc_from_nested),
